@@ -127,6 +127,7 @@ def lattice(name, n=None):
         out.append(("above", hi + 1.0))
     else:
         out.append(("huge", 1e12))
+        out.append(("inf", INF))
     out.append(("nan", math.nan))
     return [(p, v) for p, v in out if v is not None]
 
